@@ -1,5 +1,5 @@
 import DilithiumVerif.Driver.Codec
-import DilithiumVerif.Impl.Rounding
+import DilithiumVerif.Impl.Api
 /- Driver.Dispatch — maps a request line to the model function of the same Rust path. -/
 namespace DV.Drv
 open DV
@@ -70,6 +70,244 @@ def answerSweep (args : List String) : Option String := do
     some ("ok " ++ " ".intercalate (sweepAll f rest lo hi chunk []))
   | _ => none
 
+/-! ### structured requests -/
+
+def P (s : String) := intsOfStr s       -- polynomial
+def V (s : String) := vecOfStr s        -- vector
+def B (s : String) := bytesOfHex s      -- bytes
+def I (s : String) := intOfStr s
+def Nn (s : String) := s.toNat?
+
+def sP (p : List Int) := strOfInts p
+def sV (v : List (List Int)) := strOfVec v
+def sB (b : List Nat) := hexOfBytes b
+
+def boolStr (b : Bool) : String := if b then "true" else "false"
+
+/-- poly.rs / ntt.rs functions (no parameter set) -/
+def answerPoly (fn : String) (a : List String) : Option String :=
+  match fn, a with
+  | "reduce", [x] => do let x ← P x; some (showChk sP (poly_reduce x))
+  | "caddq", [x] => do let x ← P x; some (showChk sP (poly_caddq x))
+  | "add", [x, y] => do let x ← P x; let y ← P y; some (showChk sP (poly_add x y))
+  | "add_ip", [x, y] => do let x ← P x; let y ← P y; some (showChk sP (poly_add x y))
+  | "sub", [x, y] => do let x ← P x; let y ← P y; some (showChk sP (poly_sub x y))
+  | "sub_ip", [x, y] => do let x ← P x; let y ← P y; some (showChk sP (poly_sub x y))
+  | "shiftl", [x] => do let x ← P x; some ("ok " ++ sP (poly_shiftl x))
+  | "ntt", [x] => do let x ← P x; some (showChk sP (poly_ntt x))
+  | "invntt_tomont", [x] => do let x ← P x; some (showChk sP (poly_invntt_tomont x))
+  | "pointwise_montgomery", [x, y] => do let x ← P x; let y ← P y; some (showChk sP (poly_pointwise_montgomery x y))
+  | "power2round", [x] => do let x ← P x; some (showChk (fun r => sP r.1 ++ " " ++ sP r.2) (poly_power2round x))
+  | "chknorm", [x, b] => do let x ← P x; let b ← I b; some (showChk toString (poly_chknorm x b))
+  | "rej_uniform", [alen, acap, buf, buflen] => do
+      let alen ← Nn alen; let acap ← Nn acap; let buf ← B buf; let buflen ← Nn buflen
+      some (showChk (fun r => toString r.length ++ " " ++ (if r.isEmpty then "-" else sP r)) (rej_uniform alen acap buf buflen))
+  | "uniform", [seed, nonce] => do let seed ← B seed; let nonce ← Nn nonce; some (showChk sP (poly_uniform FUEL seed nonce))
+  | "t1_pack", [x] => do let x ← P x; some ("ok " ++ sB (t1_pack x))
+  | "t1_unpack", [b] => do let b ← B b; some (showChk sP (t1_unpack b))
+  | "t0_pack", [x] => do let x ← P x; some (showChk sB (t0_pack x))
+  | "t0_unpack", [b] => do let b ← B b; some (showChk sP (t0_unpack b))
+  | _, _ => none
+
+/-- poly/<set>.rs functions -/
+def answerPolySet (p : Params) (fn : String) (a : List String) : Option String :=
+  let lv := p.lvl
+  match fn, a with
+  | "decompose", [x] => do let x ← P x; some (showChk (fun r => sP r.1 ++ " " ++ sP r.2) (poly_decompose lv x))
+  | "make_hint", [x, y] => do let x ← P x; let y ← P y; some (showChk (fun r => sP r.1 ++ " " ++ toString r.2) (poly_make_hint lv x y))
+  | "use_hint", [x, y] => do let x ← P x; let y ← P y; some (showChk sP (poly_use_hint lv x y))
+  | "use_hint_ip", [x, y] => do let x ← P x; let y ← P y; some (showChk sP (poly_use_hint lv x y))
+  | "rej_eta", [alen, acap, buf, buflen] => do
+      let alen ← Nn alen; let acap ← Nn acap; let buf ← B buf; let buflen ← Nn buflen
+      some (showChk (fun r => toString r.length ++ " " ++ (if r.isEmpty then "-" else sP r)) (rej_eta lv alen acap buf buflen))
+  | "uniform_eta", [seed, nonce] => do let seed ← B seed; let nonce ← Nn nonce; some (showChk sP (poly_uniform_eta lv FUEL seed nonce))
+  | "uniform_gamma1", [seed, nonce] => do let seed ← B seed; let nonce ← Nn nonce; some (showChk sP (poly_uniform_gamma1 lv seed nonce))
+  | "challenge", [seed] => do let seed ← B seed; some (showChk sP (poly_challenge p FUEL seed))
+  | "eta_pack", [x] => do let x ← P x; some (showChk sB (eta_pack lv x))
+  | "eta_unpack", [b] => do let b ← B b; some (showChk sP (eta_unpack lv b))
+  | "z_pack", [x] => do let x ← P x; some (showChk sB (z_pack lv x))
+  | "z_unpack", [b] => do let b ← B b; some (showChk sP (z_unpack lv b))
+  | "w1_pack", [x] => do let x ← P x; some ("ok " ++ sB (w1_pack lv x))
+  | _, _ => none
+
+/-- polyvec/<lvl>.rs functions -/
+def answerVec (p : Params) (fn : String) (a : List String) : Option String :=
+  let lv := p.lvl
+  match fn, a with
+  | "matrix_expand", [rho] => do let rho ← B rho; some (showChk strOfMat (matrix_expand p FUEL rho))
+  | "l_pointwise_acc_montgomery", [u, v] => do let u ← V u; let v ← V v; some (showChk sP (l_pointwise_acc_montgomery u v))
+  | "matrix_pointwise_montgomery", [m, v] => do let m ← matOfStr m; let v ← V v; some (showChk sV (matrix_pointwise_montgomery m v))
+  | "l_uniform_eta", [seed, nonce] => do let seed ← B seed; let nonce ← I nonce; some (showChk sV (l_uniform_eta p FUEL seed nonce))
+  | "k_uniform_eta", [seed, nonce] => do let seed ← B seed; let nonce ← I nonce; some (showChk sV (k_uniform_eta p FUEL seed nonce))
+  | "l_uniform_gamma1", [seed, nonce] => do let seed ← B seed; let nonce ← I nonce; some (showChk sV (l_uniform_gamma1 p seed nonce))
+  | "l_reduce", [v] => do let v ← V v; some (showChk sV (vec_reduce v))
+  | "k_reduce", [v] => do let v ← V v; some (showChk sV (vec_reduce v))
+  | "k_caddq", [v] => do let v ← V v; some (showChk sV (vec_caddq v))
+  | "l_add", [w, v] => do let w ← V w; let v ← V v; some (showChk sV (vec_add w v))
+  | "k_add", [w, v] => do let w ← V w; let v ← V v; some (showChk sV (vec_add w v))
+  | "k_sub", [w, v] => do let w ← V w; let v ← V v; some (showChk sV (vec_sub w v))
+  | "k_shiftl", [v] => do let v ← V v; some ("ok " ++ sV (vec_shiftl v))
+  | "l_ntt", [v] => do let v ← V v; some (showChk sV (vec_ntt v))
+  | "k_ntt", [v] => do let v ← V v; some (showChk sV (vec_ntt v))
+  | "l_invntt_tomont", [v] => do let v ← V v; some (showChk sV (vec_invntt_tomont v))
+  | "k_invntt_tomont", [v] => do let v ← V v; some (showChk sV (vec_invntt_tomont v))
+  | "l_pointwise_poly_montgomery", [x, v] => do let x ← P x; let v ← V v; some (showChk sV (vec_pointwise_poly_montgomery x v))
+  | "k_pointwise_poly_montgomery", [x, v] => do let x ← P x; let v ← V v; some (showChk sV (vec_pointwise_poly_montgomery x v))
+  | "l_chknorm", [v, b] => do let v ← V v; let b ← I b; some (showChk toString (vec_chknorm v b))
+  | "k_chknorm", [v, b] => do let v ← V v; let b ← I b; some (showChk toString (vec_chknorm v b))
+  | "k_power2round", [v] => do let v ← V v; some (showChk (fun r => sV r.1 ++ " " ++ sV r.2) (k_power2round v))
+  | "k_decompose", [v] => do let v ← V v; some (showChk (fun r => sV r.1 ++ " " ++ sV r.2) (k_decompose lv v))
+  | "k_make_hint", [v0, v1] => do let v0 ← V v0; let v1 ← V v1; some (showChk (fun r => sV r.1 ++ " " ++ toString r.2) (k_make_hint lv v0 v1))
+  | "k_use_hint", [x, h] => do let x ← V x; let h ← V h; some (showChk sV (k_use_hint lv x h))
+  | "k_pack_w1", [v] => do let v ← V v; some ("ok " ++ sB (k_pack_w1 lv v))
+  | _, _ => none
+
+/-- packing/<set>.rs -/
+def answerPacking (p : Params) (fn : String) (a : List String) : Option String :=
+  match fn, a with
+  | "pack_pk", [rho, t1] => do let rho ← B rho; let t1 ← V t1; some (showChk sB (pack_pk p rho t1))
+  | "unpack_pk", [pk] => do let pk ← B pk; some (showChk (fun r => sB r.1 ++ " " ++ sV r.2) (unpack_pk p pk))
+  | "pack_sk", [rho, tr, key, t0, s1, s2] => do
+      let rho ← B rho; let tr ← B tr; let key ← B key; let t0 ← V t0; let s1 ← V s1; let s2 ← V s2
+      some (showChk sB (pack_sk p rho tr key t0 s1 s2))
+  | "unpack_sk", [sk] => do
+      let sk ← B sk
+      some (showChk (fun (r : List Nat × List Nat × List Nat × PolyVec × PolyVec × PolyVec) =>
+        sB r.1 ++ " " ++ sB r.2.1 ++ " " ++ sB r.2.2.1 ++ " " ++ sV r.2.2.2.1 ++ " " ++ sV r.2.2.2.2.1 ++ " " ++ sV r.2.2.2.2.2) (unpack_sk p sk))
+  | "pack_sig", [c, z, h] => do
+      let c ← B c; let z ← V z; let h ← V h
+      some (showChk sB (pack_sig p (List.replicate p.sigBytes 0) (some c) z h))
+  | "unpack_sig", [sig] => do
+      let sig ← B sig
+      some (showChk (fun (r : Bool × List Nat × PolyVec × PolyVec) =>
+        if r.1 then "true " ++ sB r.2.1 ++ " " ++ sV r.2.2.1 ++ " " ++ sV r.2.2.2 else "false") (unpack_sig p sig))
+  | _, _ => none
+
+/-- fips202.rs: a script of calls on one state.  ops: i (init), a:<n> absorb next n input bytes,
+    f finalize, s:<n> squeeze n bytes (SHAKE-256 only), b:<n> squeezeblocks n,
+    o:<n> absorb_once on the next n bytes (SHAKE-256 only).  Output: all squeezed bytes. -/
+def runShakeGo (is256 : Bool) : List String → KeccakState → List Nat → List Nat → Chk (List Nat)
+  | [], _, _, out => .ok out
+  | op :: rest, st, inp, out =>
+    match op.splitOn ":" with
+    | ["i"] => runShakeGo is256 rest KeccakState.init inp out
+    | ["a", n] => do
+        let n := n.toNat!
+        let st ← (if is256 then shake256_absorb st (inp.take n) n else shake128_absorb st (inp.take n) n)
+        runShakeGo is256 rest st (inp.drop n) out
+    | ["f"] => do
+        let st ← (if is256 then shake256_finalize st else shake128_finalize st)
+        runShakeGo is256 rest st inp out
+    | ["s", n] => do
+        let n := n.toNat!
+        if ¬ is256 then .error .unwrap else
+        let (o, st) ← shake256_squeeze n n st
+        runShakeGo is256 rest st inp (out ++ o)
+    | ["b", n] => do
+        let n := n.toNat!
+        let r := if is256 then R256 else R128
+        let (o, st) ← (if is256 then shake256_squeezeblocks (n * r) n st else shake128_squeezeblocks (n * r) n st)
+        runShakeGo is256 rest st inp (out ++ o)
+    | ["o", n] => do
+        let n := n.toNat!
+        if ¬ is256 then .error .unwrap else
+        let st ← shake256_absorb_once (inp.take n) n
+        runShakeGo is256 rest st (inp.drop n) out
+    | _ => .error .unwrap
+
+def answerFips (fn : String) (a : List String) : Option String :=
+  match fn, a with
+  | "shake256_script", [ops, inp] => do let inp ← B inp; some (showChk sB (runShakeGo true (ops.splitOn ",") KeccakState.init inp []))
+  | "shake128_script", [ops, inp] => do let inp ← B inp; some (showChk sB (runShakeGo false (ops.splitOn ",") KeccakState.init inp []))
+  | "shake256", [outlen, inp] => do let n ← Nn outlen; let inp ← B inp; some (showChk sB (shake256 n n inp inp.length))
+  | "shake128_stream_init", [seed, nonce, nb] => do
+      let seed ← B seed; let nonce ← Nn nonce; let nb ← Nn nb
+      some (showChk sB (do let st ← shake128_stream_init seed nonce; let (o, _) ← shake128_squeezeblocks (nb * R128) nb st; .ok o))
+  | "shake256_stream_init", [seed, nonce, nb] => do
+      let seed ← B seed; let nonce ← Nn nonce; let nb ← Nn nb
+      some (showChk sB (do let st ← shake256_stream_init seed nonce; let (o, _) ← shake256_squeezeblocks (nb * R256) nb st; .ok o))
+  | "keccakf1600_statepermute", [lanes] => do
+      let l ← intsOfStr lanes
+      if l.length ≠ 25 then none else
+      let s : Lanes := (l.map (fun x => UInt64.ofNat x.toNat)).toArray
+      some ("ok " ++ ",".intercalate ((keccakf s).toList.map (fun w => toString w.toNat)))
+  | _, _ => none
+
+def optB (s : String) : Option (Option (List Nat)) :=
+  if s == "none" then some none else (bytesOfHex s).map some
+
+def showSig : Option (List Nat) → String
+  | some s => sB s
+  | none => "none"
+
+def phOf (s : String) : Option PH :=
+  match s with | "sha256" => some .sha256 | "sha512" => some .sha512 | _ => none
+
+/-- sign/<set>.rs.  `tape` = scripted RNG bytes (hex) -/
+def answerSign (p : Params) (fn : String) (a : List String) : Option String :=
+  match fn, a with
+  | "keypair", [seed, tape] => do
+      let seed ← optB seed; let tape ← B tape
+      some (showChk (fun r => sB r.1 ++ " " ++ sB r.2.1) (keypair p seed tape))
+  | "signature", [msg, sk, rnd, tape] => do
+      let msg ← B msg; let sk ← B sk; let tape ← B tape
+      some (showChk (fun r => showSig r.1) (signature p FUEL msg sk (rnd == "1") tape))
+  | "verify", [sig, msg, pk] => do
+      let sig ← B sig; let msg ← B msg; let pk ← B pk
+      some (showChk boolStr (verify p sig msg pk))
+  | _, _ => none
+
+/-- the API wrappers <set>::{Keypair,SecretKey,PublicKey} -/
+def answerApi (p : Params) (fn : String) (a : List String) : Option String :=
+  match fn, a with
+  | "Keypair::generate", [seed, tape] => do
+      let seed ← optB seed; let tape ← B tape
+      some (showChk (fun r => sB r.1 ++ " " ++ sB r.2.1) (keypair_generate p seed tape))
+  | "Keypair::roundtrip", [bytes] => do
+      let b ← B bytes
+      some (showChk (fun (r : List Nat × List Nat) => sB (keypair_to_bytes r.1 r.2)) (keypair_from_bytes p b))
+  | "SecretKey::roundtrip", [bytes] => do let b ← B bytes; some (showChk sB (from_bytes p.skBytes b))
+  | "PublicKey::roundtrip", [bytes] => do let b ← B bytes; some (showChk sB (from_bytes p.pkBytes b))
+  | "SecretKey::sign", [sk, msg, ctx, hedged, tape] => do
+      let sk ← B sk; let msg ← B msg; let ctx ← optB ctx; let tape ← B tape
+      if p.mldsa then
+        some (showChk (fun r => showSig r.1) (do let sk ← from_bytes p.skBytes sk; mldsa_sign p FUEL sk msg ctx (hedged == "1") tape))
+      else
+        some (showChk showSig (do let sk ← from_bytes p.skBytes sk; dil_sign p FUEL sk msg))
+  | "SecretKey::prehash_sign", [sk, phm, ctx, hedged, ph, tape] => do
+      let sk ← B sk; let phm ← B phm; let ctx ← optB ctx; let tape ← B tape; let ph ← phOf ph
+      if ¬ p.mldsa then none else
+      some (showChk (fun r => showSig r.1) (do let sk ← from_bytes p.skBytes sk; mldsa_prehash_sign p FUEL sk phm ctx (hedged == "1") ph tape))
+  | "PublicKey::verify", [pk, msg, sig, ctx] => do
+      let pk ← B pk; let msg ← B msg; let sig ← B sig; let ctx ← optB ctx
+      if p.mldsa then
+        some (showChk boolStr (do let pk ← from_bytes p.pkBytes pk; mldsa_verify p pk msg sig ctx))
+      else
+        some (showChk boolStr (do let pk ← from_bytes p.pkBytes pk; dil_verify p pk msg sig))
+  | "PublicKey::prehash_verify", [pk, phm, sig, ctx, ph] => do
+      let pk ← B pk; let phm ← B phm; let sig ← B sig; let ctx ← optB ctx; let ph ← phOf ph
+      if ¬ p.mldsa then none else
+      some (showChk boolStr (do let pk ← from_bytes p.pkBytes pk; mldsa_prehash_verify p pk phm sig ctx ph))
+  | _, _ => none
+
+def apiName (s : String) : Option Params :=
+  match s with
+  | "dilithium2" => some P_lvl2 | "dilithium3" => some P_lvl3 | "dilithium5" => some P_lvl5
+  | "ml_dsa_44" => some P_mldsa44 | "ml_dsa_65" => some P_mldsa65 | "ml_dsa_87" => some P_mldsa87
+  | _ => none
+
+def answerStructured (name : String) (args : List String) : Option String :=
+  match name.splitOn "::" with
+  | ["poly", fn] => answerPoly fn args
+  | ["ntt", fn] => answerPoly fn args
+  | ["poly", set, fn] => do let p ← paramsOf set; answerPolySet p fn args
+  | ["polyvec", lvl, fn] => do let p ← paramsOf lvl; answerVec p fn args
+  | ["packing", set, fn] => do let p ← paramsOf set; answerPacking p fn args
+  | ["fips202", fn] => answerFips fn args
+  | ["sign", set, fn] => do let p ← paramsOf set; answerSign p fn args
+  | [api, ty, fn] => do let p ← apiName api; answerApi p (ty ++ "::" ++ fn) args
+  | _ => none
+
 def answer (toks : List String) : String :=
   let toks := toks.filter (· ≠ "")
   match toks with
@@ -78,6 +316,6 @@ def answer (toks : List String) : String :=
   | name :: args =>
     match answerScalar name args with
     | some s => s
-    | none => "bad-request"
+    | none => (answerStructured name args).getD "bad-request"
 
 end DV.Drv
